@@ -4,6 +4,7 @@ package c17
 
 import (
 	"fmt"
+	"math"
 	"strconv"
 	"strings"
 
@@ -30,7 +31,7 @@ func init() {
 		Run:   run,
 		Setup: func(c *core.Ctx) { c.State = &aliasState{} },
 		Floors: func(t string) map[string]int64 {
-			return map[string]int64{"numeral.exponent": 1000, "numeral.17digits": 1000, "unsupported.rejected": 100, "members>1": 1000, "members.many": 100,
+			return map[string]int64{"numeral.exponent": 1000, "numeral.17digits": 1000, "unsupported.rejected": 100, "members>1": 1000, "members.many": 100, "paths.end_a_hair_off_their_start": 2000,
 				"type.Point": 100, "type.LineString": 100, "type.MultiLineString": 100, "type.Polygon": 100, "type.MultiPolygon": 100}
 		},
 	})
@@ -66,7 +67,7 @@ func run(c *core.Ctx, idx int) {
 	}
 	if r.Chance(0.02) {
 		o.BigPath, o.MaxMembers = 0.3, 2 // paths of 63 .. 65537 vertices (documents beyond 4 KiB / 64 KiB / 1 MiB buffers)
-		o.MaxVerts = 1500 // long coordinate lists
+		o.MaxVerts = 1500                // long coordinate lists
 	}
 	k := []int{gen.KPoint, gen.KLineString, gen.KMultiLineString, gen.KPolygon, gen.KMultiPolygon}[r.Intn(5)]
 	g := gen.RandGeomKind(r, o, k, 0)
@@ -74,6 +75,53 @@ func run(c *core.Ctx, idx int) {
 		// hundreds to thousands of small members (counts on both sides of / multiples of 128 .. 8192)
 		g = gen.ManyMembers(r, k, o.Coord)
 		c.Count("members.many")
+	}
+	if r.Chance(0.15) {
+		// paths that end a hair off their start: the last vertex is the first one moved by 1..8
+		// ulps in one or both ordinates (a ring whose closing vertex was computed, not copied -
+		// a circle walked from 0 to 2 pi): it is a different vertex and must be written as such
+		hair := func(p geom.Path) {
+			if len(p) < 3 {
+				return
+			}
+			q := p[0]
+			nudge := func(v float64) float64 {
+				if v == 0 || math.IsInf(v, 0) {
+					return v
+				}
+				return math.Float64frombits(math.Float64bits(v) + uint64(r.IntRange(1, 8)) - uint64(8*r.Intn(2)))
+			}
+			switch r.Intn(3) {
+			case 0:
+				q.X = nudge(q.X)
+			case 1:
+				q.Y = nudge(q.Y)
+			default:
+				q.X, q.Y = nudge(q.X), nudge(q.Y)
+			}
+			if !math.IsNaN(q.X) && !math.IsNaN(q.Y) && !math.IsInf(q.X, 0) && !math.IsInf(q.Y, 0) {
+				p[len(p)-1] = q
+			}
+		}
+		switch t := g.(type) {
+		case geom.LineString:
+			hair(geom.Path(t))
+		case geom.MultiLineString:
+			for _, m := range t {
+				hair(geom.Path(m))
+			}
+		case geom.Polygon:
+			for _, m := range t {
+				hair(m)
+			}
+		case geom.MultiPolygon:
+			for _, pg := range t {
+				for _, m := range pg {
+					hair(m)
+				}
+			}
+		}
+		c.Count("paths.end_a_hair_off_their_start")
 	}
 	switch t := g.(type) {
 	case geom.Polygon:
